@@ -128,6 +128,8 @@ def whole_runs(run, pid, tier, seed, n_quick=36):
         arch = rnd.choice(x86 if isa == "x86" else arm)
         jobs.append(("%s|%s|upper-t" % (rel, arch), ["--arch", arch.upper(), "--lcd-timeout", str(rnd.choice([-1, 3, 25])), f],
                      False, False, work))
+        # a limit of 0 cuts the search short on any kernel with a root: the warning has to appear in BOTH outputs
+        jobs.append(("%s|%s|upper-t0" % (rel, arch), ["--arch", arch, "--lcd-timeout", "0", f], False, False, work))
         with open(f) as fh:
             text = fh.read()
         other = "# x0 x1 w2 w3 x4 x5 x6 x7\n" if isa == "x86" else "// %xmm0 %xmm1 %ymm2 %zmm3 %rax1\n"
